@@ -14,7 +14,7 @@ import ast
 
 from rsx.ctor import bind_args
 from .common import (AnalysisError, Finding, RuleResult, ClassInfo, ntext, walk_no_nested,
-                     body_stmts, const_str)
+                     body_stmts, const_str, single_defs, expand_locals, is_self_attr)
 
 RULE = 'R18'
 TEXT = ('each evaluator branch computes s0*sign*multiplier^d*g(value_in) + value_out with '
@@ -181,7 +181,13 @@ def run(repo):
             res.fail(Finding(RULE, fq, 'else: raise', '%s: an atom letter without a branch does not '
                              'raise (the evaluator would return nothing / a stale value)' % fq,
                              repo.where(fi)))
+        # a coefficient hoisted above the chain (coef = self.multiplier * self.sign) is the same product
+        defs = {k: v for k, v in single_defs(fi.node).items()
+                if any(is_self_attr(x, 'multiplier') or is_self_attr(x, 'sign') for x in ast.walk(v))
+                and k not in (out_name, 'value_in')}
         for letters, body, node in chain:
+            if defs:
+                body = [expand_locals(fi.node, st_, defs=defs) for st_ in body]
             info = analyse_branch(body, out_name)
             if any('outside the interpreted branch language' in x or 'main terms found' in x
                    or 'appears inside' in x for x in info['problems']):
